@@ -95,6 +95,9 @@ pub fn cmd_track() {
         let t0 = std::time::Instant::now();
         let mut planes = Airplanes::new();
         let mut dead = false;
+        // real time the history has taken so far: what the recorded ticks do not account for
+        #[cfg(feature = "std")]
+        let mut t0 = std::time::Instant::now();
         for step in h["steps"].as_array().unwrap() {
             let op = step["op"].as_str().unwrap();
             if dead {
@@ -121,8 +124,9 @@ pub fn cmd_track() {
                 #[cfg(feature = "std")]
                 "tick" => {
                     let secs = step["secs"].as_u64().unwrap();
-                    planes.verif_backdate(std::time::Duration::from_secs(secs));
-                    emit(&mut out, &json!({"ev": "tick", "secs": secs}));
+                    let ms = step["ms"].as_u64().unwrap_or(0);
+                    planes.verif_backdate(std::time::Duration::from_secs(secs) + std::time::Duration::from_millis(ms));
+                    emit(&mut out, &json!({"ev": "tick", "secs": secs, "ms": ms}));
                 }
                 #[cfg(feature = "std")]
                 "prune" => {
@@ -131,15 +135,18 @@ pub fn cmd_track() {
                     let t = step["T"].as_u64().unwrap();
                     let real = if t >= 2_000_000_000 { u64::MAX - (t - 2_000_000_000) } else { t };
                     let r = catch_unwind(AssertUnwindSafe(|| planes.prune(real)));
-                    emit(&mut out, &json!({"ev": "prune", "T": t, "outcome": if r.is_ok() { "ok" } else { "panic" },
+                    let wall = (t0.elapsed().as_millis() as u64 + 1).min(1_000_000);
+                    emit(&mut out, &json!({"ev": "prune", "T": t, "outcome": if r.is_ok() { "ok" } else { "panic" }, "wall_ms": wall,
                                            "planes": project_planes(&planes)}));
                 }
                 #[cfg(feature = "std")]
                 "sleep" => {
                     // real time (used once per thorough run to validate the back-dating hook itself)
                     let ms = step["ms"].as_u64().unwrap();
+                    let before = std::time::Instant::now();
                     std::thread::sleep(std::time::Duration::from_millis(ms));
-                    emit(&mut out, &json!({"ev": "tick", "secs": step["counts_as"].as_u64().unwrap_or(0)}));
+                    t0 += before.elapsed();          // the sleep is accounted for by the tick it counts as
+                    emit(&mut out, &json!({"ev": "tick", "secs": step["counts_as"].as_u64().unwrap_or(0), "ms": 0}));
                 }
                 #[cfg(feature = "std")]
                 "serde" => {
